@@ -410,56 +410,124 @@ func NumText(n Num) string {
 	return s
 }
 
-// IsFiniteDecimal reports whether r has a finite decimal expansion and, if
-// so, its number of significant digits.
+// decomp25 splits a positive integer d into 2^a * 5^b (ok=false if it has
+// another prime factor).
+func decomp25(d *big.Int) (a, b int, ok bool) {
+	a = int(d.TrailingZeroBits())
+	d5 := new(big.Int).Rsh(d, uint(a))
+	if d5.Cmp(bigOne) == 0 {
+		return a, 0, true
+	}
+	// d5 must be 5^b: estimate b from the bit length
+	bl := float64(d5.BitLen())
+	est := int(bl / 2.321928094887362)
+	for _, cand := range []int{est - 1, est, est + 1} {
+		if cand < 0 {
+			continue
+		}
+		if pow5(cand).Cmp(d5) == 0 {
+			return a, cand, true
+		}
+	}
+	return 0, 0, false
+}
+
+var bigOne = big.NewInt(1)
+
+var pow5Cache = map[int]*big.Int{}
+
+func pow5(n int) *big.Int {
+	if v, ok := pow5Cache[n]; ok {
+		return v
+	}
+	v := new(big.Int).Exp(big.NewInt(5), big.NewInt(int64(n)), nil)
+	if len(pow5Cache) < 4096 {
+		pow5Cache[n] = v
+	}
+	return v
+}
+
+// SigDigits reports whether r has a finite decimal expansion and, if so, its
+// number of significant digits.
 func SigDigits(r *big.Rat) (finite bool, digits int) {
 	if r.Sign() == 0 {
 		return true, 1
 	}
-	den := new(big.Int).Set(r.Denom())
-	two, five := big.NewInt(2), big.NewInt(5)
-	c2, c5 := 0, 0
-	for {
-		q, rem := new(big.Int).QuoRem(den, two, new(big.Int))
-		if rem.Sign() != 0 {
-			break
-		}
-		den = q
-		c2++
-	}
-	for {
-		q, rem := new(big.Int).QuoRem(den, five, new(big.Int))
-		if rem.Sign() != 0 {
-			break
-		}
-		den = q
-		c5++
-	}
-	if den.Cmp(big.NewInt(1)) != 0 {
+	a, b, ok := decomp25(r.Denom())
+	if !ok {
 		return false, 0
 	}
-	d := c2
-	if c5 > d {
-		d = c5
+	// coefficient = |num| * 2^(m-a) * 5^(m-b) with m = max(a,b); trailing
+	// decimal zeros of the coefficient do not count
+	co := new(big.Int).Abs(r.Num())
+	if a > b {
+		co.Mul(co, pow5(a-b))
+	} else if b > a {
+		co.Lsh(co, uint(b-a))
 	}
-	// coefficient = r * 10^d, an integer
-	co := new(big.Int).Mul(r.Num(), new(big.Int).Exp(big.NewInt(10), big.NewInt(int64(d)), nil))
-	co.Quo(co, r.Denom())
-	co.Abs(co)
-	s := co.String()
-	s = strings.TrimRight(s, "0")
-	if s == "" {
-		return true, 1
+	// strip factors of 10: count min(v2, v5) of co
+	v2 := int(co.TrailingZeroBits())
+	digitsTotal := decLen(co)
+	if v2 == 0 {
+		return true, digitsTotal
 	}
-	return true, len(s)
+	// v5: divide by 5 while possible, bounded by v2
+	v5 := 0
+	t := new(big.Int).Set(co)
+	rem := new(big.Int)
+	five := big.NewInt(5)
+	chunk := pow5(16)
+	for v5+16 <= v2 {
+		q, m := new(big.Int).QuoRem(t, chunk, rem)
+		if m.Sign() != 0 {
+			break
+		}
+		t = q
+		v5 += 16
+	}
+	for v5 < v2 {
+		q, m := new(big.Int).QuoRem(t, five, rem)
+		if m.Sign() != 0 {
+			break
+		}
+		t = q
+		v5++
+	}
+	z := v2
+	if v5 < z {
+		z = v5
+	}
+	d := digitsTotal - z
+	if d < 1 {
+		d = 1
+	}
+	return true, d
+}
+
+// decLen returns the number of decimal digits of a positive integer.
+func decLen(x *big.Int) int {
+	if x.Sign() == 0 {
+		return 1
+	}
+	bl := x.BitLen()
+	est := int(float64(bl-1)*0.30102999566398114) + 1 // digits of 2^(bl-1) .. may be one short
+	// exact: compare with 10^est
+	p := new(big.Int).Exp(big.NewInt(10), big.NewInt(int64(est)), nil)
+	if x.CmpAbs(p) >= 0 {
+		return est + 1
+	}
+	p2 := new(big.Int).Exp(big.NewInt(10), big.NewInt(int64(est-1)), nil)
+	if x.CmpAbs(p2) < 0 {
+		return est - 1
+	}
+	return est
 }
 
 // Exp10 returns floor(log10(|r|)) for r != 0.
 func Exp10(r *big.Rat) int {
 	a := new(big.Rat).Abs(r)
-	// estimate from digit counts
-	nd := len(a.Num().String())
-	dd := len(a.Denom().String())
+	nd := decLen(a.Num())
+	dd := decLen(a.Denom())
 	e := nd - dd
 	// 10^e <= a < 10^(e+1) ; adjust
 	p := pow10Rat(e)
